@@ -262,6 +262,9 @@ def rand_mod(rng, st, h, names=MODS):
     if name == "truediv":
         return st.mod(h, name, T())
     if name == "joinpath":
+        if rng.random() < 0.2:      # dot segments climbing above the root, then a name (the "leading slash put back" branch)
+            return st.mod(h, name, "T" if rng.random() < 0.3 else "F", *[enc(pick(rng, ["..", "../x", ".", "./x", "a/../..", "", "x/..", "../../y", "./", "../", "é"]))
+                                                                       for _ in range(rng.randint(1, 3))])
         return st.mod(h, name, "T" if rng.random() < 0.15 else "F", *[T() for _ in range(rng.randint(0, 3))])
     return st.mod(h, name)
 
@@ -275,7 +278,8 @@ def rand_build(rng, st, encoded_ok=True):
     if rng.random() < 0.8:
         kw["scheme"] = pick(rng, urlgen.SCHEMES)
     if rng.random() < 0.15:
-        kw["authority"] = pick(rng, ["h", "u:p@h:80", "[::1]:8080", "é.com", ":80", "u@", "h:99999", "[::1", "H", "u s:p%40@h", "h:0"])
+        kw["authority"] = pick(rng, ["h", "u:p@h:80", "[::1]:8080", "é.com", ":80", "u@", "h:99999", "[::1", "H", "u s:p%40@h", "h:0",
+                                     "[v1.a:b]", "[g::1]:80", "u@[v1.x]", "u:[p]@h", "[::FFFF:1.2.3.4]", "[fe80::1%25eth0]:1"])
     if rng.random() < 0.4:
         kw["user"] = pick(rng, urlgen.USERS)
     if rng.random() < 0.3:
